@@ -8,8 +8,8 @@ CONSTANTS
   FTypes = {1, 2}
   Vars = {2, 3}
   Vals = {2, 3}
-  MaxIds = 1
-  MaxFeats = 1
+  MaxIds = 0
+  MaxFeats = 0
   MaxFields = 2
   MaxVals = 2
   EmitMin = 0
